@@ -93,6 +93,12 @@ func (w *webWriter) WriteHeader(code int) {
 }
 
 func (w *webWriter) Flush() {
+	if c, ok := w.resp.(io.Closer); ok && w.typ == grpcWebText {
+		// Complete the pending base64 quantum so that everything written so far
+		// can be decoded by the client; later writes start a new base64 chunk.
+		c.Close()
+		w.resp = base64.NewEncoder(base64.StdEncoding, w.w)
+	}
 	if w.wroteHeader || w.wroteResp {
 		if f, ok := w.w.(http.Flusher); ok {
 			f.Flush()
